@@ -178,11 +178,12 @@ class VSeq(V):
     arr:  optional z3 array with at(k) == arr[k] (needed by array spec functions)
     """
 
-    def __init__(self, at, n, kind="bytes", arr=None, esort="int"):
+    def __init__(self, at, n, kind="bytes", arr=None, esort="int", off=0):
         self.at = at
         self.n = n if not isinstance(n, int) else z3.IntVal(n)
         self.kind = kind
-        self.arr = arr
+        self.arr = arr          # when set: at(k) == arr[off + k]
+        self.off = off if not isinstance(off, int) else z3.IntVal(off)
         self.esort = esort
 
     def truthy(self):
@@ -194,7 +195,7 @@ class VSeq(V):
     origin = None     # id of the parameter array this value is a slice of (provenance), if any
 
     def with_kind(self, kind):
-        r = VSeq(self.at, self.n, kind, self.arr, self.esort)
+        r = VSeq(self.at, self.n, kind, self.arr, self.esort, self.off)
         r.origin = self.origin
         return r
 
@@ -208,8 +209,11 @@ class VSeq(V):
         return f"VSeq<{self.kind}>(n={self.n})"
 
 
-def seq_from_array(arr, n, kind="bytes", esort="int"):
-    return VSeq(lambda k, a=arr: a[k], n, kind, arr=arr, esort=esort)
+def seq_from_array(arr, n, kind="bytes", esort="int", off=0):
+    o = off if not isinstance(off, int) else z3.IntVal(off)
+    if z3.is_int_value(o) and o.as_long() == 0:
+        return VSeq(lambda k, a=arr: a[k], n, kind, arr=arr, esort=esort)
+    return VSeq(lambda k, a=arr, o=o: a[k + o], n, kind, arr=arr, esort=esort, off=o)
 
 
 def seq_const(bs, kind="bytes"):
@@ -260,23 +264,31 @@ def seq_concat(a: VSeq, b: VSeq, kind=None):
 
 def seq_slice_raw(a: VSeq, lo, ln, kind=None):
     """a[lo:lo+ln] where 0<=lo, lo+ln<=a.n is already established by the caller."""
-    r = VSeq(lambda k: a.at(k + lo), ln, kind or a.kind, esort=a.esort)
+    if a.arr is not None:
+        # stay array-backed: a window into the same array (no materialisation needed by specs)
+        r = VSeq(lambda k: a.at(k + lo), ln, kind or a.kind, arr=a.arr, esort=a.esort, off=z3.simplify(a.off + lo))
+    else:
+        r = VSeq(lambda k: a.at(k + lo), ln, kind or a.kind, esort=a.esort)
     r.origin = getattr(a, "origin", None)
     return r
 
 
 def seq_append(a: VSeq, x):
     an = a.n
-    arr = z3.Store(a.arr, an, x) if a.arr is not None else None
-    if arr is not None:
-        return VSeq(lambda k, arr=arr: arr[k], an + 1, a.kind, arr=arr, esort=a.esort)
+    if a.arr is not None:
+        return seq_from_array(z3.Store(a.arr, a.off + an, x), an + 1, a.kind, a.esort, a.off)
     return VSeq(lambda k: z3.If(k == an, x, a.at(k)), an + 1, a.kind, esort=a.esort)
 
 
+def seq_prepend(a: VSeq, x):
+    if a.arr is not None:
+        return seq_from_array(z3.Store(a.arr, a.off - 1, x), a.n + 1, a.kind, a.esort, z3.simplify(a.off - 1))
+    return VSeq(lambda k: z3.If(k == 0, x, a.at(k - 1)), a.n + 1, a.kind, esort=a.esort)
+
+
 def seq_store(a: VSeq, i, x):
-    arr = z3.Store(a.arr, i, x) if a.arr is not None else None
-    if arr is not None:
-        return VSeq(lambda k, arr=arr: arr[k], a.n, a.kind, arr=arr, esort=a.esort)
+    if a.arr is not None:
+        return seq_from_array(z3.Store(a.arr, a.off + i, x), a.n, a.kind, a.esort, a.off)
     return VSeq(lambda k: z3.If(k == i, x, a.at(k)), a.n, a.kind, esort=a.esort)
 
 
@@ -291,7 +303,7 @@ def seq_eq(a: VSeq, b: VSeq):
         L = la if la is not None else lb
         if L <= 64:
             return z3.And([a.n == b.n] + [a.at(z3.IntVal(i)) == b.at(z3.IntVal(i)) for i in range(L)])
-    if a.arr is not None and b.arr is not None and z3.eq(a.arr, b.arr):
+    if a.arr is not None and b.arr is not None and z3.eq(a.arr, b.arr) and z3.eq(z3.simplify(a.off), z3.simplify(b.off)):
         return a.n == b.n
     k = fresh_bound("k")
     return z3.And(a.n == b.n, z3.ForAll([k], z3.Implies(z3.And(0 <= k, k < a.n), a.at(k) == b.at(k))))
